@@ -79,12 +79,50 @@ def font_trace(data, src, src_kind, limits_user, lims_full, locs, optimize, seed
             return {"k": "skip", "why": "instance: item count differs"}
         tr["orig"] = orig
         tr["inst"] = proj
+        tr["hbsub"], tr["hbadv"] = hb_observe(data, buf.getvalue(), font, orig, lims_full, locs, tags, src_kind == "model")
         restricted = [a for a, l in enumerate(lims_full) if tuple(l) != tuple(F(*v) for v in orig["axes"][a])]
         tr["changed"] = int(any(reg[a][1] != 0 for reg in orig["regions"] for a in restricted) or bool(orig["fv"]["recs"]) and bool(restricted))
         tr["nitems"] = len(orig["items"])
         return tr
     finally:
         logging.disable(logging.NOTSET)
+
+
+def hb_observe(data, inst_data, font, orig, lims_full, locs, tags, hvar_consistent):
+    """HarfBuzz as a second observer (fields only; TLC judges them): at every location, with the SAME
+    user coordinates on both fonts, (a) what each of a few glyphs is substituted by under the default
+    features (feature variations), (b) the horizontal advance of the glyphs that have an advance item.
+    Advances are observed only where both fonts take them from the same source (gvar phantom points
+    without HVAR, HVAR + hmtx of a CFF2 font) or where HVAR repeats gvar by construction (model fonts):
+    HarfBuzz reads HVAR when there is one, while the instancer derives the new hmtx from gvar."""
+    try:
+        from . import hb as hbmod
+    except Exception:
+        return [], []
+    order = font.getGlyphOrder()
+    gids = list(range(min(len(order), 10)))
+    adv_items = []
+    eligible = ("HVAR" not in font or hvar_consistent) if "glyf" in font else ("HVAR" in font)
+    for i, it in enumerate(orig["items"]):
+        key = it["key"]
+        if eligible and key and ((key[0] == "adv" and "glyf" in font) or (key[0] == "hvar" and "glyf" not in font)):
+            if len(adv_items) < 6:
+                adv_items.append((i + 1, font.getGlyphID(key[1])))
+    kept = [a for a, l in enumerate(lims_full) if l[0] != l[2]]
+    hbsub = []
+    adv_o = [[] for _ in adv_items]
+    adv_i = [[] for _ in adv_items]
+    try:
+        for loc in locs:
+            so = hbmod.Shaper(data, {tags[a]: float(loc[a]) for a in range(len(tags))})
+            si = hbmod.Shaper(inst_data, {tags[a]: float(loc[a]) for a in kept})
+            hbsub.append([[so.shape(glyphs=[g])[0][0] for g in gids], [si.shape(glyphs=[g])[0][0] for g in gids]])
+            for k, (_, gid) in enumerate(adv_items):
+                adv_o[k].append(so.h_advance(gid))
+                adv_i[k].append(si.h_advance(gid))
+    except Exception:
+        return [], []
+    return hbsub, [[idx, adv_o[k], adv_i[k]] for k, (idx, _) in enumerate(adv_items)]
 
 
 def _show(limits_user):
@@ -147,7 +185,7 @@ def model_tasks(chk, gen, bad):
     rng = random.Random("C08-RF-%d" % chk.seed)
     quick = chk.tier == "quick"
     share = {"one": 0.015, "one2": 0.04, "two": 0.02, "avar": 0.03, "fv": 0.005} if quick else \
-            {"one": 0.04, "one2": 0.15, "two": 0.02, "avar": 0.03, "fv": 0.02}
+            {"one": 0.015, "one2": 0.08, "two": 0.008, "avar": 0.02, "fv": 0.01}
     out = []
     for fam, cases in sorted(gen.items()):
         for case, D in cases:
